@@ -205,6 +205,10 @@ enum Op {
     SetPos(u64),
     Len,
     Inner,
+    /// positions that do not fit TLC's integers: logged as bytes
+    SetPosBig(u64),
+    PosBig,
+    ReadBig,
 }
 
 impl TB {
@@ -242,6 +246,23 @@ impl TB {
                 if let Some(l) = self.b.len() {
                     tr.emit(Ev::new("wb_len").i("o", self.id).i("ret", l as i64));
                 }
+            }
+            Op::SetPosBig(p) => {
+                let r = self.b.set_pos(*p);
+                tr.emit(Ev::new("wb_setpos_big").i("o", self.id).bytes("pb", &p.to_be_bytes()).s("res", tag(&r)));
+            }
+            Op::PosBig => {
+                if let R::Ok(p) = self.b.pos() {
+                    tr.emit(Ev::new("wb_pos_big").i("o", self.id).bytes("ret", &p.to_be_bytes()));
+                }
+            }
+            Op::ReadBig => {
+                let r = self.b.read();
+                let v = match &r {
+                    R::Ok(v) => v.clone(),
+                    _ => vec![],
+                };
+                tr.emit(Ev::new("wb_read_big").i("o", self.id).s("res", tag(&r)).bytes("v", &v));
             }
             Op::Inner => {
                 let d = self.b.data();
@@ -297,6 +318,43 @@ pub fn run(tr: &mut Tr, seed: u64, paths_file: &str, seqlen: usize, randlen: usi
                     distinct.insert(format!("{}{}{}{:?}", kind, owned, p["path"].to_string(), std::mem::discriminant(&op)));
                 }
             }
+        }
+    }
+    // (a') positions near and beyond 2^31 .. 2^64 - 1 (a position is a u64): exact on the zero-extended
+    // reader, rejected without moving by the others; then back to an ordinary position
+    let bigs: Vec<u64> = vec![1 << 31, (1 << 32) + 7, (1 << 60) - 1, 1 << 60, (1 << 61) + 5, 1 << 62, (1 << 63) - 1, 1 << 63, u64::MAX - 1, u64::MAX];
+    for wbits in words {
+        let wbytes = wbits / 8;
+        for p in &paths {
+            let kind = p["kind"].as_str().unwrap();
+            let path = p["path"].as_array().unwrap();
+            let data: Vec<Vec<u8>> = path[0]["data"].as_array().unwrap().iter().map(|t| tok_bytes(t.as_str().unwrap(), wbytes)).collect();
+            tr.reset();
+            let mut b = TB::new(tr, kind, true, wbits, &data);
+            for st in &path[1..] {
+                let o = match st["op"].as_str().unwrap() {
+                    "read" => Op::Read,
+                    "write" => Op::Write(tok_bytes(st["v"].as_str().unwrap(), wbytes)),
+                    "setpos" => Op::SetPos(st["p"].as_u64().unwrap()),
+                    x => panic!("path op {}", x),
+                };
+                b.apply(tr, &o);
+            }
+            for &big in &bigs {
+                b.apply(tr, &Op::SetPosBig(big));
+                b.apply(tr, &Op::PosBig);
+                if kind == "inf" && big < u64::MAX - 1 {
+                    b.apply(tr, &Op::ReadBig);
+                    b.apply(tr, &Op::PosBig);
+                }
+                tests += 1;
+            }
+            if kind == "inf" {
+                b.apply(tr, &Op::SetPos(1));
+            }
+            b.apply(tr, &Op::Pos);
+            b.apply(tr, &Op::Read);
+            b.apply(tr, &Op::Inner);
         }
     }
     // (b) every call sequence up to seqlen over arrays of length <= 2
